@@ -126,6 +126,92 @@ PLANS['C07'] = _conc_plan('C07', ['mixed', 'provider', 'consumer'],
                           'final state.')
 
 
+FAULT_RULE = ('corpus entry = one generated write request (all write '
+              'routes) in a state built by a seeded set-up history. A '
+              'fault-free dry run records the ordinal of every SQL statement '
+              'and commit the request performs and its twin result; then the '
+              'request is re-executed from the restored snapshot once per '
+              '(ordinal, fault kind). evaluations = simulated runs (corpus '
+              'entries); fault points executed are reported as '
+              'reach_probes.fault_points. distinct_nontrivial counts DISTINCT '
+              'corpus entries by (request kind, sequence of statement '
+              'verb+table, twin status).')
+FAULT_ASSUME = [
+    'fault personalities are emulations at the DBAPI seam: deadlock-keep = '
+    'lock wait timeout (transaction kept), deadlock-rollback = MySQL 1213 '
+    '(server rolled the transaction back), dupkey = lost INSERT race (the '
+    'winning row becomes visible when the victim transaction ends), connlost '
+    '= disconnect, dberror = other server error, commit-fail = commit '
+    'rejected and rolled back',
+    'ambiguous commits (applied but reported failed) are not injected',
+    'the must-retry window of an allocation write is recognised by SQL '
+    'shape: from the first statement on the allocations table inside the '
+    'write transaction to the end of that transaction (reshaper: to the '
+    'next statement on inventories)',
+]
+
+
+def _c17(tier):
+    q = tier == 'quick'
+    return {
+        'runs': [('fault', {'max_points': 45 if q else None,
+                            'pairs': 0 if q else 12}, 260 if q else 4000),
+                 ('sync_fault', {'pairs': 0 if q else 1}, 24 if q else 300)],
+        'level': 'fault_enumeration',
+        'rule': FAULT_RULE + ' quick samples at most 45 (ordinal, kind) '
+        'points per entry, always keeping the must-retry windows; thorough '
+        'enumerates every point and adds seeded pairs of faults. Start-up '
+        'synchronisation from empty / partially / fully synchronised '
+        'databases is enumerated the same way (profile sync_fault).',
+        'assumptions': COMMON_ASSUMPTIONS + FAULT_ASSUME,
+        'wall_cap': 280 if q else 6000,
+    }
+
+
+def _c18(tier):
+    q = tier == 'quick'
+    return {
+        'runs': [('crash', {'max_points': 40 if q else None},
+                  300 if q else 5000)],
+        'level': 'fault_enumeration',
+        'rule': FAULT_RULE.replace('(ordinal, fault kind)',
+                                   'crash point') +
+        ' Crash points: before every statement, before and after every '
+        'commit. The request thread is frozen for ever at the crash point, '
+        'its connections are rolled back and closed; the surviving state is '
+        'judged, then the service is restarted and probed.',
+        'assumptions': COMMON_ASSUMPTIONS + [
+            'a crash is modelled as: no further instruction of the request '
+            'runs, the database rolls back the open transaction (connections '
+            'closed); durability of committed transactions is delegated to '
+            'the DBMS and not questioned'],
+        'wall_cap': 280 if q else 6000,
+    }
+
+
+def _c19(tier):
+    q = tier == 'quick'
+    return {
+        'runs': [('names', {}, 700 if q else 12000),
+                 ('sync_fault', {}, 16 if q else 150)],
+        'level': 'exploration',
+        'rule': 'seeded histories of trait / resource-class create, rename '
+        'and delete requests (legal, illegal, boundary-length and standard '
+        'names) interleaved with simulated restarts, from an empty, '
+        'partially or fully synchronised start database (a random subset of '
+        'the standard names removed). distinct_nontrivial counts DISTINCT '
+        'stored (class name->id, trait names) states reached.',
+        'assumptions': COMMON_ASSUMPTIONS + [
+            'restart = module-level sync flags reset and '
+            'deploy.update_database() run again in the same process'],
+    }
+
+
+PLANS['C17'] = _c17
+PLANS['C18'] = _c18
+PLANS['C19'] = _c19
+
+
 def plan_for(prop, tier):
     p = PLANS.get(prop)
     if p is None:
